@@ -333,7 +333,8 @@ def needs_sep(a, b):
     return False
 
 
-SPACES = [" ", "\n", "\t", "\r\n", "  ", "\n\n", " ", " ", "　", "\u0085", " ", " \t "]
+WHITE_SPACE = [chr(c) for c in list(range(0x9, 0xE)) + [0x20, 0x85, 0xA0, 0x1680] + list(range(0x2000, 0x200B)) + [0x2028, 0x2029, 0x202F, 0x205F, 0x3000]]
+SPACES = [" ", "\n", "\t", "\r\n", "  ", "\n\n", " \t ", " ", "\n"] + WHITE_SPACE
 COMMENTS = ["// c\n", "//\n", "// é ü € 😀 #[x] $y :: {\n", "//// start struct\r\n", "// \t \n"]
 
 
